@@ -56,18 +56,6 @@ func tGot(g Got) lib.T {
 	return lib.L(lib.N(uint64(g.Kind)), lib.N(uint64(g.Sender)), lib.N(g.Seq), lib.NI(g.Len), lib.N(g.Sum))
 }
 
-// connCase builds the model input for the connections a proxy carried: (handshake delivered whole?, chunks).
-func connTerm(c *PConn) (lib.T, int) {
-	rec, chunks := c.Record()
-	xs := make([]lib.T, 0, len(chunks))
-	off := 0
-	for _, n := range chunks {
-		xs = append(xs, lib.B(rec[off:off+n]))
-		off += n
-	}
-	return lib.LS(xs), len(rec)
-}
-
 type expect struct {
 	sender uint32
 	msgs   []*XMsg
@@ -157,46 +145,10 @@ func (h *H) checkDelivery(tag string, dst *Node, from int, exps []expect, c lib.
 	}
 }
 
-// emitCase: the exact bytes the proxy handed to dst since connection index fromConn vs what dst observed.
-func (h *H) emitCase(kind string, dst *Node, conns []*PConn, recFrom, dfFrom, rcFrom, rfFrom int, nontrivial bool) lib.T {
-	var cts []lib.T
-	total := 0
-	for _, c := range conns {
-		t, n := connTerm(c)
-		total += n
-		cts = append(cts, lib.L(lib.Bool(c.Plan.HsSplit == 0 || c.Plan.HsSplit >= len(c.Hs)), t))
-	}
-	in := lib.L(lib.N(0), lib.LS(cts))
-	if total > maxCaseBytes {
-		h.o.Stats["case-skipped-too-big"]++
-		return lib.L(lib.N(0), lib.S(fmt.Sprintf("%d connections, %d bytes", len(conns), total)))
-	}
-	var dl []lib.T
-	for _, g := range dst.Rec.Snapshot(recFrom) {
-		dl = append(dl, tGot(g))
-	}
-	dst.Ev.mu.Lock()
-	var df, ov []lib.T
-	for _, e := range dst.Ev.DecodeFail[dfFrom:] {
-		df = append(df, lib.NI(e.MessageSize))
-	}
-	nrc := len(dst.Ev.Received) - rcFrom
-	for _, s := range dst.Ev.ReadFailed[rfFrom:] {
-		if i := strings.Index(s, "length: "); i >= 0 {
-			var n uint64
-			fmt.Sscanf(s[i+8:], "%d", &n)
-			ov = append(ov, lib.N(n))
-		}
-	}
-	dst.Ev.mu.Unlock()
-	out := lib.L(lib.LS(dl), lib.NI(nrc), lib.LS(df), lib.LS(ov))
-	h.o.Case(kind, nontrivial, in, out)
-	return in
-}
-
 type marks struct{ rec, df, rc, rf, dead, conns int }
 
 func mark(n *Node) marks {
+	n.Barrier()
 	df, rc, _, _, _, dl, rf, _ := n.Ev.snapshotCounts()
 	return marks{rec: n.Rec.Len(), df: df, rc: rc, rf: rf, dead: dl, conns: n.Proxy.NConns()}
 }
@@ -278,7 +230,7 @@ func (h *H) round(A, B *Node, cfg roundCfg, seed uint64) {
 		}
 		df, _, _, _, _, dl, rf, _ := n.Ev.snapshotCounts()
 		if df != m.df || rf != m.rf {
-			h.o.Monitor("c11-decode-failed", desc, fmt.Sprintf("%s: %s reported %d decode failures / %d read failures on a healthy link", cfg.name, n.Name, df-m.df, rf-m.rf))
+			h.o.Monitor("c11-decode-failed", desc, fmt.Sprintf("%s: %s reported %d decode failures / %d invalid-length warnings on a healthy link", cfg.name, n.Name, df-m.df, rf-m.rf))
 		}
 		if dl != m.dead {
 			h.o.Monitor("c11-dead-letter", desc, fmt.Sprintf("%s: %s produced %d dead letters on a healthy link", cfg.name, n.Name, dl-m.dead))
@@ -302,23 +254,39 @@ func (h *H) round(A, B *Node, cfg roundCfg, seed uint64) {
 	h.o.Stats["asks"] += asksAB + asksBA
 }
 
-// emitConnCase: one connection, record taken from byte offset `from` (a frame boundary; -1 = find it: the
-// record prefix that had been received when the marks were taken is unknown for the reverse direction, so
-// the whole record and all observations of that node since the connection began are used instead).
-func (h *H) emitConnCase(kind string, dst *Node, c *PConn, from int, m marks, nontrivial bool) {
+// observed: what dst saw since the marks, in the shape of the model's output
+func observed(dst *Node, m marks) lib.T {
+	dst.Barrier()
+	var dl []lib.T
+	for _, g := range dst.Rec.Snapshot(m.rec) {
+		dl = append(dl, tGot(g))
+	}
+	dst.Ev.mu.Lock()
+	var df, ov []lib.T
+	for _, e := range dst.Ev.DecodeFail[m.df:] {
+		df = append(df, lib.NI(e.MessageSize))
+	}
+	nrc := len(dst.Ev.Received) - m.rc
+	for _, n := range dst.Ev.Oversize[m.rf:] {
+		ov = append(ov, lib.N(n))
+	}
+	dst.Ev.mu.Unlock()
+	return lib.L(lib.LS(dl), lib.NI(nrc), lib.LS(df), lib.LS(ov))
+}
+
+// connInput: the model's view of one connection: (whole?, chunks).  whole: from the handshake on; otherwise from
+// byte offset `from` of the frame stream (a frame boundary).
+func connInput(c *PConn, whole bool, from int) (lib.T, int) {
 	rec, chunks := c.Record()
-	if from < 0 {
-		// whole connection: observations since it began are not separable from earlier rounds' tail; use the
-		// marks but include the preceding sync frames' deliveries by rewinding the marks to the connection start
-		h.o.Stats["case-skipped-reverse"]++
-		return
-	}
-	if len(rec)-from > maxCaseBytes {
-		h.o.Stats["case-skipped-too-big"]++
-		return
-	}
-	// chunks from `from` on (the first one may be cut)
 	var xs []lib.T
+	if whole {
+		c.mu.Lock()
+		for _, h := range c.HsChunks {
+			xs = append(xs, lib.B(h))
+		}
+		c.mu.Unlock()
+		from = 0
+	}
 	off := 0
 	for _, n := range chunks {
 		lo, hi := off, off+n
@@ -331,26 +299,18 @@ func (h *H) emitConnCase(kind string, dst *Node, c *PConn, from int, m marks, no
 		}
 		xs = append(xs, lib.B(rec[lo:hi]))
 	}
-	in := lib.L(lib.N(0), lib.L(lib.L(lib.Bool(true), lib.LS(xs))))
-	var dl []lib.T
-	for _, g := range dst.Rec.Snapshot(m.rec) {
-		dl = append(dl, tGot(g))
+	return lib.L(lib.Bool(whole), lib.LS(xs)), len(rec) - from
+}
+
+// emitConnCase: the model's parser on the very bytes the proxy handed to dst on one connection since offset
+// `from`, against what dst observed since the marks.
+func (h *H) emitConnCase(kind string, dst *Node, c *PConn, from int, m marks, nontrivial bool) {
+	ct, n := connInput(c, false, from)
+	if n > maxCaseBytes {
+		h.o.Stats["case-skipped-too-big"]++
+		return
 	}
-	dst.Ev.mu.Lock()
-	var df, ov []lib.T
-	for _, e := range dst.Ev.DecodeFail[m.df:] {
-		df = append(df, lib.NI(e.MessageSize))
-	}
-	nrc := len(dst.Ev.Received) - m.rc
-	for _, s := range dst.Ev.ReadFailed[m.rf:] {
-		if i := strings.Index(s, "length: "); i >= 0 {
-			var n uint64
-			fmt.Sscanf(s[i+8:], "%d", &n)
-			ov = append(ov, lib.N(n))
-		}
-	}
-	dst.Ev.mu.Unlock()
-	h.o.Case(kind, nontrivial, in, lib.L(lib.LS(dl), lib.NI(nrc), lib.LS(df), lib.LS(ov)))
+	h.o.Case(kind, nontrivial, lib.L(lib.N(0), lib.L(ct)), observed(dst, m))
 }
 
 // normalize: NewRef must accept what GetAddress/GetPath produce (idempotence of the normalisers)
@@ -400,6 +360,16 @@ func (h *H) runFrame() {
 	}
 	defer func() { B.Stop(); B.Proxy.Close() }()
 	h.logf("systems up: A bind %s adv %s, B bind %s adv %s", A.Bind, A.Adv, B.Bind, B.Adv)
+	dl := make(chan func(), 1)
+	go h.deadline10s(dl)
+	defer func() {
+		select {
+		case f := <-dl:
+			f()
+		case <-time.After(40 * time.Second):
+			h.o.Monitor("harness-timeout", nil, "deadline10s scenario did not finish")
+		}
+	}()
 	small := []int{0, 0, 1, 2, 3, 7, 16, 31, 64, 100, 200}
 	mid := []int{0, 1, 100, 1000, 4000, 4081, 4096, 5000, 9000}
 	thorough := h.tier == "thorough"
@@ -498,15 +468,16 @@ func (h *H) handshakeSplit(A, B *Node) {
 					want = append(want, x.Seq)
 				}
 			}
-			t, _ := connTerm(c)
-			cts = append(cts, lib.L(lib.Bool(false), lib.NI(split), lib.B(c.Hs), t))
+			t, _ := connInput(c, true, 0)
+			cts = append(cts, t)
 		}
 		var have []uint64
 		for _, g := range got {
 			have = append(have, g.Seq)
 		}
-		desc := lib.L(lib.S("handshake-split"), lib.NI(split), lib.LS(cts))
+		desc := lib.L(lib.S("handshake-split"), lib.NI(split))
 		h.o.Stats["handshake-split-runs"]++
+		h.o.Case("handshake-split", true, lib.L(lib.N(0), lib.LS(cts)), observed(B, m))
 		if fmt.Sprint(want) != fmt.Sprint(have) {
 			df, _, _, _, _, _, rf, _ := B.Ev.snapshotCounts()
 			h.o.Monitor("c11-handshake-split", desc, fmt.Sprintf("handshake of %d bytes delivered to the acceptor as %d + %d bytes: the proxy handed B the frames with seq %v on that connection, B's actor received %v (decode failures %d, read failures %d)",
@@ -555,3 +526,75 @@ func decodeXMsgFrame(body []byte) *XMsg {
 }
 
 var _ vivid.ActorRef
+
+// deadline10s: Handshake.Send/Wait leave a 10 s write/read deadline on the connection.  A steady stream of Tells
+// over a connection that stays up must still arrive completely (C11).  Runs on its own pair of systems.
+func (h *H) deadline10s(out chan<- func()) {
+	var post []func()
+	defer func() { out <- func() { for _, f := range post { f() } } }()
+	A, err := StartNode("DA", 0, nil)
+	if err != nil {
+		return
+	}
+	defer func() { A.Stop(); A.Proxy.Close() }()
+	B, err := StartNode("DB", 0, nil)
+	if err != nil {
+		return
+	}
+	defer func() { B.Stop(); B.Proxy.Close() }()
+	ref := RemoteRecv(B)
+	t0 := time.Now()
+	var seq uint64
+	type ev struct {
+		seq uint64
+		at  time.Duration
+	}
+	var sentAt []ev
+	for time.Since(t0) < 10700*time.Millisecond {
+		seq++
+		A.Sys.Tell(ref, &XMsg{Kind: KTell, Sender: 900, Seq: seq, Data: []byte("steady")})
+		sentAt = append(sentAt, ev{seq, time.Since(t0)})
+		d := time.Since(t0)
+		if d > 9800*time.Millisecond && d < 10300*time.Millisecond {
+			time.Sleep(20 * time.Microsecond)
+		} else {
+			time.Sleep(2 * time.Millisecond)
+		}
+	}
+	waitUntil(2*time.Second, func() bool { return B.Rec.Len() >= int(seq) })
+	got := map[uint64]bool{}
+	var order []uint64
+	for _, g := range B.Rec.Snapshot(0) {
+		if g.Sender == 900 {
+			got[g.Seq] = true
+			order = append(order, g.Seq)
+		}
+	}
+	dead := map[uint64]bool{}
+	A.Ev.mu.Lock()
+	for _, d := range A.Ev.Dead {
+		dead[d.Seq] = true
+	}
+	A.Ev.mu.Unlock()
+	var lost []string
+	nl := 0
+	for _, e := range sentAt {
+		if !got[e.seq] && !dead[e.seq] {
+			nl++
+			if len(lost) < 8 {
+				lost = append(lost, fmt.Sprintf("seq %d sent at %.4fs", e.seq, e.at.Seconds()))
+			}
+		}
+	}
+	conns := B.Proxy.NConns()
+	nsent, ndead := int(seq), len(dead)
+	post = append(post, func() {
+		h.o.Stats["deadline-steady-stream-sent"] += nsent
+		h.o.Info["deadline_10s"] = map[string]any{"sent": nsent, "received": len(got), "dead_letters": ndead, "silently_lost": nl, "first_lost": lost, "connections_used": conns}
+		if nl > 0 || ndead > 0 {
+			h.o.Monitor("c11-steady-stream-loss", lib.L(lib.S("steady-stream-10s"), lib.NI(nsent)),
+				fmt.Sprintf("steady stream of %d Tells over 10.7 s on an undisturbed loopback connection: %d received, %d dead letters, %d lost without any report (%s); connections used: %d — the 10 s handshake read/write deadlines are never cleared",
+					nsent, len(got), ndead, nl, strings.Join(lost, "; "), conns))
+		}
+	})
+}
